@@ -30,8 +30,9 @@ MANIFEST = {
 
 PLAN = {
     # tier: (mc cfgs, tlc scenarios per kind, generated per kind, hammer (readers, logged ops, appends, free ops))
-    "quick": (["MC_Explorer_sets_quick.cfg", "MC_Explorer_push_quick.cfg"], 25, 60, (4, 40, 6, 1500)),
-    "thorough": (["MC_Explorer_sets_thorough.cfg", "MC_Explorer_push_thorough.cfg", "MC_Explorer_push2_thorough.cfg"], 150, 1200, (6, 120, 12, 20000)),
+    # ... , append hammers (count, rounds, max concurrent appenders))
+    "quick": (["MC_Explorer_sets_quick.cfg", "MC_Explorer_appenders_quick.cfg", "MC_Explorer_push_quick.cfg"], 25, 60, (4, 40, 6, 1500), (2, 25, 8)),
+    "thorough": (["MC_Explorer_sets_thorough.cfg", "MC_Explorer_push_thorough.cfg", "MC_Explorer_push2_thorough.cfg"], 150, 1200, (6, 120, 12, 20000), (8, 60, 8)),
 }
 
 ASSUME = [
@@ -48,7 +49,7 @@ ASSUME = [
 def run(prop, tier, replay=None):
     t0 = time.time()
     work = vlib.scratch(prop)
-    mcs, ntlc, ngen, ham = PLAN[tier]
+    mcs, ntlc, ngen, ham, aham = PLAN[tier]
     seed = vlib.seed()
     mc_states = mc_trans = 0
     mc_info = {}
@@ -71,8 +72,14 @@ def run(prop, tier, replay=None):
             raise vlib.Broken("negative control failed: unsynchronised readers do not violate NoTornRead in the model:\n" + r["out"][-1500:])
         mc_info["MC_Explorer_unlocked_control.cfg"] = "NoTornRead violated, as it must be"
         print("TLC negative control: readers that do not take the lock violate NoTornRead in the model (expected)")
+        r = vlib.tlc(work, "MC_Explorer", "MC_Explorer_checkthenact_control.cfg", workers=4, timeout=300)
+        if "Invariant ListIsChainPrefix is violated" not in r["out"]:
+            raise vlib.Broken("negative control failed: two appenders that decide what is new before taking the lock do not violate "
+                              "ListIsChainPrefix in the model:\n" + r["out"][-1500:])
+        mc_info["MC_Explorer_checkthenact_control.cfg"] = "ListIsChainPrefix violated, as it must be"
+        print("TLC negative control: appenders that check before they lock violate ListIsChainPrefix in the model (expected)")
         rnd = random.Random("explorer-hammer-%d" % seed)
-        sets = fe.tlc_scenarios(work, ntlc, seed, "sets") + fe.gen_scenarios(seed, ngen, "sets") + [fe.hammer_scenario(rnd, *ham, mode=m) for m in ("lookup", "current")]
+        sets = fe.tlc_scenarios(work, ntlc, seed, "sets") + fe.gen_scenarios(seed, ngen, "sets") + [fe.hammer_scenario(rnd, *ham, mode=m) for m in ("lookup", "current")] + [fe.append_hammer_scenario(rnd, aham[1], aham[2]) for _ in range(aham[0])]
         push = fe.tlc_scenarios(work, ntlc, seed, "push") + fe.gen_scenarios(seed, ngen, "push")
     for i, s in enumerate(sets + push):
         s["tid"] = i + 1
@@ -111,7 +118,7 @@ def run(prop, tier, replay=None):
         sc = by_tid.get(t)
         detail = {"kind": "trace line rejected by TLC", "line": {"ev": bad["ev"], "a": bad["a"], "s": bad.get("s"), "n": bad["n"]},
                   "history": [[x["ev"], x["a"], x.get("s")] for x in by_t[t] if x["n"] <= bad["n"]][-30:]}
-        if sc is not None and sc.get("src") != "hammer":
+        if sc is not None and sc.get("src") not in ("hammer",):
             detail["scenario"] = sc
         verdict.add(sig, detail)
     rc = verdict.finish()
@@ -157,6 +164,11 @@ def run(prop, tier, replay=None):
         "push_outcomes_by_class": dict(outs), "guardian_set_sizes": {str(k): v for k, v in sorted(sizes.items())},
         "race_reports": dict(racesigs), "rejected_lines": dict(rejects), "traces_fully_explained": len(first_bad) - nrej,
         "hammer": dict(zip(("readers", "logged_ops_per_reader", "appends", "free_ops_per_reader"), ham)),
+        "append_hammer": dict(zip(("instances", "rounds", "max_concurrent_appenders"), aham),
+                              concurrent_append_calls=sum(1 for t, tl in by_t.items() if by_tid.get(t, {}).get("src") == "append-hammer"
+                                                          for x in tl if x["ev"] == "AppendCall"),
+                              widest_history=max([fe._width(tl) for tl in by_t.values()] or [0])),
+        "validation_passes": r.get("passes"),
         "scenario_sources": dict(Counter(s.get("src") for s in by_tid.values())),
         "known_findings_matched": getattr(verdict, "n_known", 0),
         "exhaustive": False,
